@@ -193,6 +193,40 @@ func hp1Heap(p *core.Prog, rep *core.Report) {
 		eng := core.NewEngine(p, core.Hooks{
 			Name:   "HP1",
 			Follow: func(f *ssa.Function) bool { return false },
+			Edge: func(x *core.Exec, iff *ssa.If, taken bool, a core.AState) (core.AState, bool) {
+				// a heap of at most one item is trivially ordered: the edge of a length test that implies
+				// "<= 1 item" re-establishes consistency
+				bo, ok := iff.Cond.(*ssa.BinOp)
+				if !ok || a != "D" {
+					return a, true
+				}
+				isLen := func(v ssa.Value) bool {
+					if lenOf(v) != nil {
+						return true
+					}
+					c, ok := v.(*ssa.Call)
+					return ok && c.Common().StaticCallee() != nil && c.Common().StaticCallee().Name() == "Len"
+				}
+				k, isK := constInt(bo.Y)
+				if !isLen(bo.X) || !isK {
+					return a, true
+				}
+				small := false
+				switch bo.Op {
+				case token.GTR: // len > k : false edge => len <= k
+					small = !taken && k <= 1
+				case token.GEQ:
+					small = !taken && k <= 2
+				case token.LSS:
+					small = taken && k <= 2
+				case token.LEQ:
+					small = taken && k <= 1
+				}
+				if small {
+					return "C", true
+				}
+				return a, true
+			},
 			Step: func(x *core.Exec, in ssa.Instruction, a core.AState) ([]core.StepOut, bool) {
 				ci, ok := in.(ssa.CallInstruction)
 				if !ok {
